@@ -1,5 +1,5 @@
 \* THOROUGH: repaired design, chain <= 4, 2 source steps (<= 2 reorgs), 1 fault, safety.
-\* Measured: 4 156 713 distinct / 15 438 697 generated states, depth 81, ~4 min on 4 busy cores
+\* Measured: 8 628 206 distinct / 33 047 000 generated states, depth 85, ~4.5 min on 6 cores
 CONSTANTS
   InitLen = 3
   MaxLen = 4
